@@ -2,7 +2,7 @@
    == and != on values (NaN, equal-not-identical, raising, incoherent), arbitrary validation function
    (rejecting, converting), any default, any trait kind / comparison mode, any list of handlers of the
    five mechanisms each possibly raising; [wf E] only says that handler ids are distinct.
-   Histories are arbitrary lists of assignments and reads from any start state. *)
+   Histories are arbitrary lists of assignments, reads and `del` from any start state. *)
 From Coq Require Import List Arith Bool PeanoNat ZArith.
 From TV Require Import Common.Harness C02.Model C02.Law C02.Proofs.
 Import ListNotations.
@@ -23,13 +23,16 @@ Theorem calls_are_exactly_changes :
 Proof. exact calls_exact. Qed.
 Print Assumptions calls_are_exactly_changes.
 
+(* `del` (outside the statement, modelled for faithfulness) reports (stored value, default) the same way *)
 Theorem old_new_truthful :
   forall E s o c, In c (o_calls (snd (step E s o))) ->
-    exists v w, o = Assign v /\ e_validate E v = Some w /\ snd c = w /\
-      match e_kind E with
-      | TEvent => snd (fst c) = OUndefined
-      | TNormal _ => snd (fst c) = OVal (readable E s) /\ readable E (fst (step E s o)) = w
-      end.
+    (exists v w, o = Assign v /\ e_validate E v = Some w /\ snd c = w /\
+       match e_kind E with
+       | TEvent => snd (fst c) = OUndefined
+       | TNormal _ => snd (fst c) = OVal (readable E s) /\ readable E (fst (step E s o)) = w
+       end)
+    \/ (o = Delete /\ snd (fst c) = OVal (readable E s) /\ snd c = e_default E
+        /\ readable E (fst (step E s o)) = e_default E).
 Proof. exact calls_truthful. Qed.
 Print Assumptions old_new_truthful.
 
